@@ -317,6 +317,36 @@ Definition m_lc_composed_cmp (a b : nrepr) : outcome comparison :=
 (* Hash for Name / RelativeName / ParsedName *)
 Definition m_name_hash (a : nrepr) : outcome bytes := iters_hash LOOP_FUEL (iter_of a).
 
+(* UncertainName<Octs>: Absolute(Name) | Relative(RelativeName).  == holds
+   only within one variant (Name == / RelativeName ==, both flat), the Hash
+   feeds the labels of whichever name it holds *)
+Inductive uname := UAbs (w : bytes) | URel (w : bytes).
+Definition m_uncertain_eq (a b : uname) : outcome bool :=
+  match a, b with
+  | UAbs x, UAbs y => if uncertain_eq_same_variant_only then m_name_eq (NFlat x) (NFlat y) else Ok false
+  | URel x, URel y => if uncertain_eq_same_variant_only then m_relname_eq (NFlat x) (NFlat y) else Ok false
+  | _, _ => Ok false
+  end.
+Definition m_uncertain_hash (a : uname) : outcome bytes :=
+  match a with UAbs w | URel w => m_name_hash (NFlat w) end.
+
+(* core::iter::Chain as std implements it: the first half is dropped (fused)
+   once it has answered None; `oa = None` is that state *)
+Definition fused_next (oa : option iter) (b : iter) : outcome (option (label * (option iter * iter))) :=
+  match oa with
+  | Some a =>
+      do ra <- iter_next a;
+      match ra with
+      | Some (l, a') => Ok (Some (l, (Some a', b)))
+      | None =>
+          do rb <- iter_next b;
+          match rb with Some (l, b') => Ok (Some (l, (None, b'))) | None => Ok None end
+      end
+  | None =>
+      do rb <- iter_next b;
+      match rb with Some (l, b') => Ok (Some (l, (None, b'))) | None => Ok None end
+  end.
+
 (* ---------------------------------------- ParsedName::parent / split_first
 
    Both walk from self.pos over compression pointers (LabelType::peek +
@@ -643,20 +673,34 @@ Definition m_parsed_record_eq (a : hdr) (da : bytes) (b : hdr) (db : bytes) : bo
    are generic in the table.
    kinds: 1 u8, 2 u16, 3 u32 (and integer newtypes of that width), 4 name
    lower-cased in canonical form, 5 name kept as is, 6 CharStr, 7 octets,
-   8 octets carrying a length octet in wire form, 9 type bitmap octets.
+   8 octets carrying a length octet in wire form, 9 type bitmap octets;
+   outside the table: 10 IPv4 address, 11 IPv6 address, 12 48 bit integer,
+   13 octets carrying a 16 bit length in wire form.
    What a Hasher receives is a list of tokens: write_u8 / write_u16 /
    write_u32 / write_usize calls and raw `write` calls. *)
-Inductive tok := TB (v : N) | TW (v : N) | TD (v : N) | TN (v : N) | TR (b : bytes).
+Inductive tok := TB (v : N) | TW (v : N) | TD (v : N) | TQ (v : N) | TN (v : N) | TR (b : bytes).
+
+(* exactly n octets (addresses) *)
+Definition pad (n : nat) (w : bytes) : bytes := firstn n (w ++ repeat 0 n).
+(* u32::from_ne_bytes on a little-endian host (Ipv4Addr's Hash) *)
+Definition le32 (w : bytes) : N :=
+  match w with
+  | [a; b; c; d] => a + 256 * (b + 256 * (c + 256 * d))
+  | _ => 0
+  end.
+Definition be48 (n : N) : bytes := be16 (n / 4294967296) ++ be32 (n mod 4294967296).
 
 Inductive fval :=
 | VU8 (v : N) | VU16 (v : N) | VU32 (v : N)
 | VNameLc (n : name) | VNameRaw (n : name)
-| VStr (s : bytes) | VOcts (t : bytes) | VPfx (s : bytes) | VBitmap (t : bytes).
+| VStr (s : bytes) | VOcts (t : bytes) | VPfx (s : bytes) | VBitmap (t : bytes)
+| VAddr4 (w : bytes) | VAddr16 (w : bytes) | VU48 (v : N) | VOcts16 (s : bytes).
 
 Definition fv_kind (v : fval) : N :=
   match v with
   | VU8 _ => 1 | VU16 _ => 2 | VU32 _ => 3 | VNameLc _ => 4 | VNameRaw _ => 5
   | VStr _ => 6 | VOcts _ => 7 | VPfx _ => 8 | VBitmap _ => 9
+  | VAddr4 _ => 10 | VAddr16 _ => 11 | VU48 _ => 12 | VOcts16 _ => 13
   end.
 
 (* the canonical schema field of a value *)
@@ -666,6 +710,8 @@ Definition fv_field (v : fval) : field :=
   | VNameLc n => FName n | VNameRaw n => FNameRaw n
   | VStr s => FStr s | VPfx s => FStr s
   | VOcts t => FTail t | VBitmap t => FTail t
+  | VAddr4 w => FFixed (pad 4 w) | VAddr16 w => FFixed (pad 16 w)
+  | VU48 x => FFixed (be48 x) | VOcts16 t => FStr16 t
   end.
 
 (* ==: integers, name_eq, CharStr ==, octets *)
@@ -674,7 +720,10 @@ Definition fv_eq (a b : fval) : bool :=
   | VU8 x, VU8 y | VU16 x, VU16 y | VU32 x, VU32 y => x =? y
   | VNameLc x, VNameLc y | VNameRaw x, VNameRaw y => name_eqb x y
   | VStr x, VStr y => m_charstr_eq x y
-  | VOcts x, VOcts y | VPfx x, VPfx y | VBitmap x, VBitmap y => bytes_eqb x y
+  | VOcts x, VOcts y | VPfx x, VPfx y | VBitmap x, VBitmap y | VOcts16 x, VOcts16 y => bytes_eqb x y
+  | VAddr4 x, VAddr4 y => bytes_eqb (pad 4 x) (pad 4 y)
+  | VAddr16 x, VAddr16 y => bytes_eqb (pad 16 x) (pad 16 y)
+  | VU48 x, VU48 y => x =? y
   | _, _ => false
   end.
 
@@ -685,7 +734,10 @@ Definition fv_hash (v : fval) : list tok :=
   | VU8 x => [TB x] | VU16 x => [TW x] | VU32 x => [TD x]
   | VNameLc n | VNameRaw n => map TB (name_hash_feed n)
   | VStr s => map TB (m_charstr_hash s)
-  | VOcts t | VPfx t | VBitmap t => [TN (N.of_nat (length t)); TR t]
+  | VOcts t | VPfx t | VBitmap t | VOcts16 t => [TN (N.of_nat (length t)); TR t]
+  | VAddr4 w => [TD (le32 (pad 4 w))]
+  | VAddr16 w => [TR (pad 16 w)]
+  | VU48 x => [TQ x]
   end.
 
 Definition pick (idx : list N) (vs : list fval) : list fval :=
@@ -706,6 +758,62 @@ Definition rd_canonical_cmp (cc : list N) (a b : list fval) : outcome comparison
   fields_cmp (map fv_field (pick cc a)) (map fv_field (pick cc b)).
 Definition rd_enc (a : list fval) : bytes := fields_enc (map fv_field a).
 
+(* one comparison step of an Ord / PartialOrd / CanonicalOrd impl, by the mode
+   T1 assigns to it (rd_ord_table): 1 integers, 2 serial number arithmetic,
+   3 name_cmp, 4 lowercase_composed_cmp, 5 composed_cmp, 6 CharStr cmp,
+   7 length first then octets, 8 plain octets.  None: no ordering. *)
+Definition fv_num (v : fval) : option N :=
+  match v with VU8 x | VU16 x | VU32 x | VU48 x => Some x | _ => None end.
+Definition fv_name (v : fval) : option name :=
+  match v with VNameLc n | VNameRaw n => Some n | _ => None end.
+Definition fv_octs (v : fval) : option bytes :=
+  match v with VStr s | VOcts s | VPfx s | VBitmap s | VOcts16 s => Some s | _ => None end.
+Definition step_cmp (mode : N) (a b : fval) : option comparison :=
+  if mode =? 1 then match fv_num a, fv_num b with Some x, Some y => Some (x ?= y) | _, _ => None end
+  else if mode =? 2 then match fv_num a, fv_num b with Some x, Some y => u32_partial_gen true x y | _, _ => None end
+  else if mode =? 3 then match fv_name a, fv_name b with Some x, Some y => Some (name_cmp x y) | _, _ => None end
+  else if mode =? 4 then match fv_name a, fv_name b with
+                         | Some x, Some y => Some (lex_cmp (wire_abs (canon x)) (wire_abs (canon y))) | _, _ => None end
+  else if mode =? 5 then match fv_name a, fv_name b with
+                         | Some x, Some y => Some (lex_cmp (wire_abs x) (wire_abs y)) | _, _ => None end
+  else if mode =? 6 then match fv_octs a, fv_octs b with Some x, Some y => Some (m_charstr_cmp x y) | _, _ => None end
+  else if mode =? 7 then match fv_octs a, fv_octs b with
+                         | Some x, Some y => Some (then_cmp (len_cmp x y) (lex_cmp x y)) | _, _ => None end
+  else if mode =? 8 then match fv_octs a, fv_octs b with Some x, Some y => Some (lex_cmp x y) | _, _ => None end
+  else None.
+(* match s1 { Equal => {} other => return other } ... *)
+Fixpoint chain_opt (steps : list (N * N)) (a b : list fval) : option comparison :=
+  match steps with
+  | [] => Some Eq
+  | (i, mode) :: rest =>
+      match nth_error a (N.to_nat i), nth_error b (N.to_nat i) with
+      | Some x, Some y =>
+          match step_cmp mode x y with
+          | Some Eq => chain_opt rest a b
+          | r => r
+          end
+      | _, _ => None
+      end
+  end.
+Definition ord_row := (list (N * N) * list (N * N) * list (N * N))%type.
+Fixpoint ord_lookup (t : list (N * ord_row)) (code : N) : option ord_row :=
+  match t with
+  | [] => None
+  | (c, r) :: t' => if c =? code then Some r else ord_lookup t' code
+  end.
+Definition orow_ord (r : ord_row) := let '(o, _, _) := r in o.
+Definition orow_partial (r : ord_row) := let '(_, p, _) := r in p.
+Definition orow_canonical (r : ord_row) := let '(_, _, c) := r in c.
+Definition c04_rd_cmp (code : N) (a b : list fval) : option comparison :=
+  match ord_lookup rd_ord_table code with Some r => chain_opt (orow_ord r) a b | None => None end.
+Definition c04_rd_partial (code : N) (a b : list fval) : option comparison :=
+  match ord_lookup rd_ord_table code with Some r => chain_opt (orow_partial r) a b | None => None end.
+Definition c04_rd_ccmp_steps (code : N) (a b : list fval) : option comparison :=
+  match ord_lookup rd_ord_table code with Some r => chain_opt (orow_canonical r) a b | None => None end.
+(* values outside the table (A, AAAA, TXT, SVCB, IPSECKEY, TSIG, OPT): the
+   Hash impls feed every field in order, after the type *)
+Definition c04_rdh (code : N) (a : list fval) : list tok := TW code :: flat_map fv_hash a.
+
 Definition rd_row := (list N * (list N * list N * list N * list N))%type.
 Fixpoint rd_lookup (t : list (N * rd_row)) (code : N) : option rd_row :=
   match t with
@@ -720,6 +828,8 @@ Definition row_hash (r : rd_row) : list N := let '(_, (_, _, _, h)) := r in h.
 
 (* ------------------------------------------- entry points for the T2 driver *)
 Definition c04_header_cmp := m_header_cmp.
+Definition c04_uncertain_eq := m_uncertain_eq.
+Definition c04_uncertain_hash := m_uncertain_hash.
 Definition c04_zonemd_partial := m_zonemd_serial_partial.
 Definition c04_rrsig_partial := m_rrsig_time_partial.
 Definition c04_nsec3_partial := m_nsec3_salt_partial.
